@@ -104,6 +104,10 @@ func vErrOf(kind string) error {
 		return vfake.ErrPermission
 	case "other":
 		return vfake.ErrOther
+	case "op-nobufs":
+		return &net.OpError{Op: "write", Net: "ip6:ipv6-icmp", Err: os.NewSyscallError("sendmsg", syscall.ENOBUFS)}
+	case "op-acces":
+		return &net.OpError{Op: "write", Net: "ip6:ipv6-icmp", Err: os.NewSyscallError("sendmsg", syscall.EACCES)}
 	case "eintr", "emfile", "op-netdown":
 		// as the socket layer reports them: *net.OpError around *os.SyscallError;
 		// EINTR and EMFILE are "temporary" for package net without being timeouts
